@@ -411,14 +411,19 @@ type Kernel struct {
 
 // LoadKernel loads <name>.o built by cplane/build.sh. MaxEntries of big maps are clamped so
 // that pre-allocated hash maps stay small. A verifier rejection is returned as the error.
-func LoadKernel(name string) (*Kernel, error) {
+func LoadKernel(name string) (*Kernel, error) { return LoadKernelSized(name, 4096) }
+
+// LoadKernelSized loads the object with every map declared larger than maxEntries shrunk to maxEntries (the map
+// TYPE and flags stay as the source declares them): what the program and the control plane do when a map is full
+// can then be observed with a few hundred entries instead of a million.
+func LoadKernelSized(name string, maxEntries uint32) (*Kernel, error) {
 	spec, err := ebpf.LoadCollectionSpec(filepath.Join(OutDir(), "bpf", name+".o"))
 	if err != nil {
 		return nil, err
 	}
 	for _, m := range spec.Maps {
-		if m.MaxEntries > 4096 && m.Type != ebpf.RingBuf && m.Type != ebpf.PerfEventArray {
-			m.MaxEntries = 4096
+		if m.MaxEntries > maxEntries && m.Type != ebpf.RingBuf && m.Type != ebpf.PerfEventArray {
+			m.MaxEntries = maxEntries
 		}
 	}
 	coll, err := ebpf.NewCollection(spec)
